@@ -451,6 +451,11 @@ func (g *Gen) stakingTx() Op {
 				amt = 1 + r.Int63n(d.Shares.TruncateInt64())
 			}
 		}
+		if len(g.W.C.Vals) > 1 && r.Chance(30) {
+			// move the stake to another validator instead of unbonding it
+			v2 := 1 + (v+r.Intn(len(g.W.C.Vals)-1))%len(g.W.C.Vals)
+			return Op{K: "redelegate", Creator: who, Val: v, Val2: v2, Amount: amt}
+		}
 		return Op{K: "undelegate", Creator: who, Val: v, Amount: amt}
 	case 6:
 		rop := Op{K: "reset", Creator: n, Status: []uint32{15, 15, 15, 13, 7}[r.Intn(5)], PeerOk: &t, Val: r.Intn(len(g.W.C.Vals) + 1)}
